@@ -84,29 +84,29 @@ func DictCodeFor(n uint32) byte {
 
 // Block describes a parsed block.
 type Block struct {
-	HeaderOff, HeaderLen int
-	HasCSize, HasUSize   bool
+	HeaderOff, HeaderLen   int
+	HasCSize, HasUSize     bool
 	CSizeField, USizeField int64
-	DictCode             byte
-	DictSize             uint32
-	DataOff              int
-	CompSize             int // measured
-	USize                int // measured
-	Unpadded             int64
-	PadLen               int
-	Chunks               []Chunk
-	Stats                Stats
-	ContentOff           int // offset of this block's plaintext in Out
+	DictCode               byte
+	DictSize               uint32
+	DataOff                int
+	CompSize               int // measured
+	USize                  int // measured
+	Unpadded               int64
+	PadLen                 int
+	Chunks                 []Chunk
+	Stats                  Stats
+	ContentOff             int // offset of this block's plaintext in Out
 }
 
 // Stream describes one parsed xz stream.
 type Stream struct {
-	Off, Len   int
-	Check      byte
-	Blocks     []Block
-	IndexOff   int
-	IndexSize  int
-	PadAfter   int
+	Off, Len               int
+	Check                  byte
+	Blocks                 []Block
+	IndexOff               int
+	IndexSize              int
+	PadAfter               int
 	ContentOff, ContentLen int
 }
 
@@ -409,11 +409,11 @@ func decodeStream(in []byte, off, si int, res *XZResult) (*Stream, int, error) {
 
 // BlockSpec describes a block for the xz generator.
 type BlockSpec struct {
-	Chunks     []ChunkSpec // must end with CkEnd
-	DictCode   byte
-	WithCSize  bool
-	WithUSize  bool
-	ExtraPad   int // extra header padding in units of 4 bytes
+	Chunks    []ChunkSpec // must end with CkEnd
+	DictCode  byte
+	WithCSize bool
+	WithUSize bool
+	ExtraPad  int // extra header padding in units of 4 bytes
 }
 
 // StreamSpec describes a stream for the xz generator.
